@@ -8,9 +8,9 @@
  *  VP_MODE 1: ldb_crc32c_extend(z, data, VP_LEN) == bitwise reference for
  *             fully symbolic data and z, data at misalignment VP_MIS (mod 4).
  *  VP_MODE 2: same for a longer input of VP_LEN bytes of which a window of
- *             VP_WINSZ bytes is symbolic -- at position VP_WIN, or at EVERY
- *             position (symbolic) when VP_WIN < 0 -- and the rest a fixed
- *             pattern; z symbolic when VP_SYMZ.
+ *             VP_WINSZ bytes is symbolic and the rest a fixed pattern, for
+ *             each window position VP_WIN..VP_WIN_END-1 in turn; z symbolic
+ *             when VP_SYMZ.
  *  VP_MODE 3: RFC 3720 B.4 test vectors + the vector lcdb's own self-test uses.
  *  VP_MODE 4: round_up(p, N) arithmetic for N in {4, 8} on every address
  *             value (justifies the alignment model below).
@@ -49,7 +49,10 @@
 #define VP_SYMZ 0
 #endif
 #ifndef VP_WINSZ
-#define VP_WINSZ 4
+#define VP_WINSZ 1
+#endif
+#ifndef VP_WIN_END
+#define VP_WIN_END VP_LEN
 #endif
 
 #define VP_POLY 0x82f63b78ul
@@ -159,31 +162,20 @@ harness(void) {
   {
     uint8_t *in = vp_data;
     uint32_t z = 0x12345678ul, got, want;
-    size_t i;
-    for (i = 0; i < VP_MIS + VP_LEN; i++)
-      in[i] = (uint8_t)(i * 37 + 11);
-#if VP_WIN >= 0
-    for (i = 0; i < VP_WINSZ && VP_WIN + i < VP_LEN; i++)
-      in[VP_MIS + VP_WIN + i] = vp_u8();
-#else
-    {
-      /* window of VP_WINSZ arbitrary bytes at an ARBITRARY position */
-      size_t pos = vp_size();
-      uint8_t w[VP_WINSZ];
-      VP_ASSUME(pos + VP_WINSZ <= VP_LEN);
-      vp_fill(w, VP_WINSZ);
-      for (i = 0; i < VP_LEN; i++) {
-        if (i >= pos && i < pos + VP_WINSZ)
-          in[VP_MIS + i] = w[i - pos];
-      }
-    }
-#endif
+    size_t i, pos;
 #if VP_SYMZ
     z = vp_u32();
 #endif
-    got = ldb_crc32c_extend(z, in + VP_MIS, VP_LEN);
-    want = vp_ref_crc32c_extend(z, in + VP_MIS, VP_LEN);
-    VP_ASSERT(got == want, "ldb_crc32c_extend == bitwise CRC-32C (windowed)");
+    /* for every window position VP_WIN .. VP_WIN_END-1 separately */
+    for (pos = VP_WIN; pos < VP_WIN_END && pos + VP_WINSZ <= VP_LEN; pos++) {
+      for (i = 0; i < VP_MIS + VP_LEN; i++)
+        in[i] = (uint8_t)(i * 37 + 11);
+      for (i = 0; i < VP_WINSZ; i++)
+        in[VP_MIS + pos + i] = vp_u8();
+      got = ldb_crc32c_extend(z, in + VP_MIS, VP_LEN);
+      want = vp_ref_crc32c_extend(z, in + VP_MIS, VP_LEN);
+      VP_ASSERT(got == want, "ldb_crc32c_extend == bitwise CRC-32C (windowed)");
+    }
     VP_WITNESS("extend windowed");
   }
 #elif VP_MODE == 3
